@@ -189,6 +189,14 @@ EXTRA10 = {
 for _k, _v in EXTRA10.items():
     CLAIMS[_k] = (CLAIMS[_k][0], CLAIMS[_k][1] + _v, CLAIMS[_k][2])
 CLAIMS["C09"] = (CLAIMS["C09"][0] + ", abstract run of critical_path() on a small concrete graph (final state of the result members)", CLAIMS["C09"][1], CLAIMS["C09"][2])
+# after the fifth refactoring round
+EXTRA11 = {
+ "C18": " IterationIndexFilter positions are decided by abstract runs on given lists of distinct iterations.",
+ "C19": " The artefact agreement is decided by abstract runs of save() and restore_cpgraph() with every file operation hooked (names, modes, archive members, extraction before the first read, members put back).",
+}
+for _k, _v in EXTRA11.items():
+    CLAIMS[_k] = (CLAIMS[_k][0], CLAIMS[_k][1] + _v, CLAIMS[_k][2])
+CLAIMS["C19"] = (CLAIMS["C19"][0] + "; abstract runs of save() / restore_cpgraph() with hooked file operations (effect log of writes and reads)", CLAIMS["C19"][1], CLAIMS["C19"][2])
 TECH9 = {
  "C03": ("AST discipline rules for both builders", "abstract runs of the stack scan of both builders on all well-nested endpoint sequences of up to 4 events (AST discipline rules as diagnostics)"),
  "C08": ("dominance rule for validation", "dominance rule for validation plus abstract runs of _validate_graph on one-edge graphs"),
